@@ -22,7 +22,6 @@
 package xpath
 
 import (
-	"bytes"
 	"fmt"
 	"math"
 	"regexp"
@@ -356,15 +355,13 @@ func normalizeSpace(ctx *context, args []Datum) (retLit Datum) {
 
 	lit0 := args[0].Literal("normalizeSpace()")
 
-	fields := strings.Fields(lit0)
-	var b bytes.Buffer
-	for _, field := range fields {
-		b.WriteString(field)
-		b.WriteString(" ")
-	}
-	retStr := b.String()
-	retStr = retStr[:len(retStr)-1] // Remove last space
-	return NewLiteralDatum(retStr)
+	// XPath 1.0 4.2: whitespace is #x20, #x9, #xD and #xA only; leading and
+	// trailing whitespace goes, every other run becomes a single space
+	// (and nothing is left of a string without any other character).
+	fields := strings.FieldsFunc(lit0, func(r rune) bool {
+		return r == ' ' || r == '\t' || r == '\r' || r == '\n'
+	})
+	return NewLiteralDatum(strings.Join(fields, " "))
 }
 
 func not(ctx *context, args []Datum) (retBool Datum) {
